@@ -7,6 +7,9 @@
     yowsup/layers/interface/interface.py       reconnect flag, onStreamError, onConnected, onDisconnected, connect/disconnect
     yowsup/layers/protocol_iq/layer.py         keep-alive thread, waitPong / gotPong, stop on disconnect(ed)
     yowsup/layers/noise/layer.py               protocol reset on disconnected
+    yowsup/layers/axolotl/layer_control.py     the control layer's own reboot of the connection after a confirmed passive key upload
+                                               (on_keys_flushed: flag + DISCONNECT broadcast downward; on_disconnected: flag cleared,
+                                               passive switched off, connect) — present when `control` is set
     yowsup/stacks/yowstack.py + layers/__init__.py  the DISCONNECTED event is emitted *detached*: the layer directly above
                                                the network layer sees it at once, all others when the stack's loop runs
   Inputs are the property's alphabet; outputs are the observable announcements and dispatcher calls.
@@ -35,6 +38,7 @@ inductive In
   | streamError (k : ErrKind)
   | pingTick                    -- the keep-alive thread's interval elapsed
   | pong (fresh : Bool)         -- a pong arrives; `fresh` = its id is one of the outstanding pings
+  | keysFlushed                 -- the server confirms the key upload of a passive login (control layer present: it reboots the connection)
   | loop                        -- the stack's loop runs the queued (detached) callbacks
   | appSend                     -- application sends a stanza
 deriving Repr, DecidableEq
@@ -67,6 +71,8 @@ structure St where
   pendingDown : Nat := 0               -- queued continuations of detached DISCONNECTED events
   noiseFresh : Bool := true            -- noise protocol in its initial state (no session)
   unknownErrRaises : Bool := false     -- the auth layer raises for stream errors of an unknown kind (pinned behaviour)
+  control : Bool := false              -- the stack contains the encryption control layer
+  rebootFlag : Bool := false           -- control layer: _reboot_connection
 deriving Repr, DecidableEq
 
 def setDisp (ds : List Disp) (i : Nat) (d : Disp) : List Disp := ds.set i d
@@ -119,10 +125,13 @@ def loopOne (s : St) : St × List Out :=
   if s.pendingDown = 0 then (s, [])
   else
     let s1 := { s with pendingDown := s.pendingDown - 1, noiseFresh := true, pingThread := false, outstanding := 0 }
-    if s1.reconnectFlag then
-      let r := createConnection { s1 with reconnectFlag := false }
-      (r.1, .downAll :: r.2)
-    else (s1, [.downAll])
+    -- the control layer sits below the interface layer and sees the event first: its own reboot (flag cleared, passive off, connect)
+    let rb := if s1.rebootFlag then createConnection { s1 with rebootFlag := false, passive := false } else (s1, [])
+    let s2 := rb.1
+    if s2.reconnectFlag then
+      let r := createConnection { s2 with reconnectFlag := false }
+      (r.1, .downAll :: (rb.2 ++ r.2))
+    else (s2, .downAll :: rb.2)
 
 /-- the stack's loop runs every queued callback -/
 def drain (s : St) : Nat → St × List Out
@@ -179,6 +188,10 @@ def step (s : St) : In → St × List Out
            | none => ({ s with outstanding := n }, [.pingSent, .dropped]))
         | _, _ => ({ s with outstanding := n }, [.pingSent, .dropped])
   | .pong fresh => if fresh then ({ s with outstanding := 0 }, []) else (s, [])
+  | .keysFlushed =>
+    -- on_keys_flushed(reboot_connection=True): flag, then DISCONNECT broadcast DOWNWARD from the control layer (the network layer
+    -- destroys the connection; the layers above hear of it only through the deferred 'disconnected')
+    if s.control then destroyConnection { s with rebootFlag := true } else (s, [])
   | .loop => drain s s.pendingDown
   | .appSend =>
     match s.cur, s.connected with
@@ -207,6 +220,7 @@ def Allowed (s : St) : In → Bool
   | .success => s.nstate == .connected
   | .failure => s.nstate == .connected
   | .streamError _ => s.nstate == .connected
+  | .keysFlushed => s.nstate == .connected && s.control && !s.rebootFlag
   | _ => true
 
 def AllowedRun : St → List In → Bool
